@@ -1,4 +1,5 @@
 """C17 — list, extract and the library agree on what an archive contains."""
+import unicodedata
 import json, os, random, re, stat
 from vlib.flow import Check
 from vlib import cli, core
@@ -171,11 +172,22 @@ def observe(c, rnd, n_obs):
             for _ in range(8):
                 if done >= n_obs:
                     break
+                # names that hold a control character, selected by a pattern that spells the character itself:
+                # the patterns are matched against the stored name, never against what a printer shows for it
+                ctl_names = [n for n in names if any(unicodedata.category(ch) == "Cc" and ch != "\n" for ch in n)]
+                force_ctl = bool(ctl_names) and rnd.random() < 0.15
                 while True:
-                    pats = [] if rnd.random() < 0.3 else X.gen_patterns(rnd, names)
+                    if force_ctl:
+                        n0 = rnd.choice(ctl_names)
+                        lit_ = "".join("[%s]" % ch if ch in "*?[]{}\\" else ch for ch in n0)
+                        i0 = next(i for i, ch in enumerate(n0) if unicodedata.category(ch) == "Cc")
+                        pats = [rnd.choice([lit_, "*" + lit_[lit_.index(n0[i0]):], "**/*[" + n0[i0] + "]*", "*[" + n0[i0] + "]*"])]
+                    else:
+                        pats = [] if rnd.random() < 0.3 else X.gen_patterns(rnd, names)
                     m = X.matched(pats, names) if pats else []
                     if m is not None:
                         break
+                    force_ctl = False
                 mh = sorted(set(X.hx(n) for n in m))
                 selected = lambda o: (not pats) or o["name"] in mh
                 view = rnd.choice(["plain", "plain", "jsonl", "jsonl", "table", "long", "tree", "tree", "extract", "extract"])
@@ -185,6 +197,11 @@ def observe(c, rnd, n_obs):
                 if flavour == "encsolid" and not solid and view != "extract":
                     pass
                 classify = view in ("plain", "table", "long", "tree") and rnd.random() < 0.3
+                # -q shows control characters of the printed names as '?'; it must not change WHICH entries are listed
+                if force_ctl:
+                    view = rnd.choice(["plain", "plain", "long", "table", "extract"]) if not has_nl else rnd.choice(["plain", "extract"])
+                quiet = view in ("plain", "table", "long") and (force_ctl or rnd.random() < 0.4)
+                hide = (lambda t: "".join("?" if unicodedata.category(ch) == "Cc" else ch for ch in t)) if quiet else (lambda t: t)
                 msgs = []
                 i = len(cases)
                 if view == "extract":
@@ -222,12 +239,12 @@ def observe(c, rnd, n_obs):
                     if extra:
                         msgs.append("extract created %s which no selected entry accounts for" % sorted(extra)[:3])
                 else:
-                    args = ["list"] + (["--solid"] if solid else []) + (["--classify"] if classify else [])
+                    args = ["list"] + (["--solid"] if solid else []) + (["--classify"] if classify else []) + (["-q"] if quiet else [])
                     args += {"plain": [], "long": ["-l"], "table": ["--format", "table", "--unstable"], "jsonl": ["--format", "jsonl", "--unstable"],
                              "tree": ["--format", "tree", "--unstable"]}[view]
                     r = cli.run_pna(args + pw + ["--", inputs[0]] + pats, cwd=sb.root, timeout=60)
                     visible = [o for o in lib if (solid or o["solid"] < 0) and selected(o)]
-                    op = {"long": "table"}.get(view, view)
+                    op = {"long": "table"}.get(view, view) + ("q" if quiet else "")
                     if op == "jsonl":
                         case = "\t".join([op, "1" if solid else "0", str(len(pats)), ",".join(mh), atext])
                     else:
@@ -244,7 +261,7 @@ def observe(c, rnd, n_obs):
                             if o["kind"] == 2: return n + ("@" if classify else "") + " -> " + t
                             if o["kind"] == 3: return n + " -> " + t
                             return n
-                        exp = "".join(disp(o) + "\n" for o in visible).encode()
+                        exp = "".join(hide(disp(o)) + "\n" for o in visible).encode()
                         if r["out"] != exp:
                             msgs.append("plain list differs from the library's entries: %r vs %r" % (r["out"][:200], exp[:200]))
                     elif view == "jsonl":
@@ -262,7 +279,7 @@ def observe(c, rnd, n_obs):
                             exp = [(kind_char(o["kind"]), str(o["clen"]) if o["kind"] == 0 else "-") for o in visible]
                             if [(k, s) for k, s, _ in rows] != exp:
                                 msgs.append("table list differs from the library's entries (kind, size): %s vs %s" % (rows[:4], exp[:4]))
-                            if [n.split(" -> ")[0].rstrip("/@") if classify else n.split(" -> ")[0] for _, _, n in rows] != [bytes.fromhex(o["name"]).decode() for o in visible]:
+                            if [n.split(" -> ")[0].rstrip("/@") if classify else n.split(" -> ")[0] for _, _, n in rows] != [hide(bytes.fromhex(o["name"]).decode()) for o in visible]:
                                 msgs.append("table list names differ from the library's")
                     else:
                         rows = parse_tree(r["out"]) if r["out"] else []
@@ -283,7 +300,7 @@ def observe(c, rnd, n_obs):
                                     want.add("/".join(comps[:j]))
                             if paths != want:
                                 msgs.append("tree nodes are not the prefix closure of the listed names: %s" % sorted(paths ^ want)[:4])
-                key = "view:%s%s%s" % (view, "/solid" if solid else "", "/patterns" if pats else "")
+                key = "view:%s%s%s%s" % (view, "/solid" if solid else "", "/patterns" if pats else "", "/-q" if quiet and view != "extract" else "") + ("/ctl-pattern" if force_ctl else "")
                 c.hist[key] = c.hist.get(key, 0) + 1
                 if msgs:
                     replay = "archive: %s (%s) // command: %s" % (atext, flavour, r["cmd"].replace(sb.root, "<sandbox>"))
